@@ -1087,3 +1087,15 @@ fire('C07', 'slotted-do-put-token-compared-with-itself (seed C07-d)', 'C07.R', '
 silent('C07', 'prs-cancel-removes-token-by-index',
        lambda p: M.replace_node(p, S_PRS, 'ReservablePriorityReqStore.reserve_get_cancel', M.stmt_calling('self.reservations_get.remove'),
                                 'self.reservations_get.pop(self.reservations_get.index(get_event_to_cancel))'))
+
+# ---- C18.R9: counters start at 0 and step by one (mutation sweep survivors)
+fire('C18', 'sink-received-counter-step-zero', 'C18.R9', 'counter-step:num_item_received',
+     lambda p: M.replace_node(p, N_SNK, 'Sink.behaviour', lambda n: isinstance(n, ast.AugAssign) and 'num_item_received' in ast.unparse(n.target), sub('+= 1', '+= 0')))
+fire('C18', 'source-generated-counter-starts-at-one', 'C18.R9', 'counter-initial:num_item_generated',
+     lambda p: {N_SRC: p.modules[N_SRC].src.replace('"num_item_generated": 0', '"num_item_generated": 1', 1)})
+silent('C18', 'machine-counter-step-respelled',
+       lambda p: {N_MAC: p.modules[N_MAC].src.replace('self.stats["num_item_discarded"] += 1', 'self.stats["num_item_discarded"] = self.stats["num_item_discarded"] + 1', 1)})
+
+# ---- C15.R7: reset() runs before the first item (mutation sweep survivor)
+fire('C15', 'machine-behaviour-never-resets', 'C15.R7', 'reset-before-first-item',
+     lambda p: M.delete_stmt(p, N_MAC, 'Machine.behaviour', M.stmt_calling('self.reset')))
